@@ -310,8 +310,88 @@ func runC04(tier string) int {
 		})
 	}
 	c04Tap = nil
+	c04MassFile(r, tier)
 	r.Assume("user-chosen names never imitate generated names (<script>_<n>, <script>_Text_<n>, <script>_Movement_<n>, <map>_<TYPE>...): generator guarantee",
 		"static run-off clause takes every branch as feasible and every label as a possible entry")
 	return r.Finish(r.Get("evaluations"), r.Get("nontrivial"),
-		"outputs of the C01 families and C03 switch programs (re-enumerated), a family with labels in dead code (after end/return/break/goto/infinite loop, in a body shared with default), multi-statement files, and the C06 hoisting and C08 mapscripts families at a reduced bound; each case = one emitted file checked for: labels defined once, references resolved, user labels present once, no fall-through across a block boundary from any label, plus dynamic run-off exploration; non-trivial = >= 3 labels defined and a user label or hoisted datum present")
+		"outputs of the C01 families and C03 switch programs (re-enumerated), a family with labels in dead code (after end/return/break/goto/infinite loop, in a body shared with default), multi-statement files, and the C06 hoisting and C08 mapscripts families at a reduced bound, and one mass file of N scripts (N in the coverage) scanned for labels defined once and references resolved; each case = one emitted file checked for: labels defined once, references resolved, user labels present once, no fall-through across a block boundary from any label, plus dynamic run-off exploration; non-trivial = >= 3 labels defined and a user label or hoisted datum present")
+}
+
+// c04MassFile: one file with N scripts (systematic names, four body shapes with generated sub-labels). Any per-file
+// table that is keyed by less than the full (script, sub-label) identity - a hash, a truncated or joined key - meets
+// collisions at this size (about N^2 / 2^33 for a 32-bit hash). Checked with a linear scan: every label defined
+// once, every referenced label defined.
+func c04MassFile(r *harness.Run, tier string) {
+	n := 120000
+	if tier == "thorough" {
+		n = 500000
+	}
+	bodies := []string{
+		"\tif (flag(F)) {\n\t\tx\n\t}\n",
+		"\twhile (var(V) < 3) {\n\t\tx\n\t\tif (flag(G)) {\n\t\t\tbreak\n\t\t}\n\t}\n",
+		"\tswitch (var(W)) {\n\t\tcase 1:\n\t\t\tx\n\t\tcase 2:\n\t\tdefault:\n\t\t\ty\n\t}\n",
+		"\tif (flag(F) && var(V) == 2 || defeated(T)) {\n\t\tx\n\t} else {\n\t\ty\n\t}\n\tz\n",
+	}
+	prefixes := []string{"Sc", "Route", "Town_Script_", "é"}
+	for _, opt := range []bool{true, false} {
+		if r.Expired() {
+			r.NotExhaustive("mass file not run")
+			return
+		}
+		var sb strings.Builder
+		for i := 0; i < n; i++ {
+			fmt.Fprintf(&sb, "script %s%d {\n%s}\n", prefixes[i%len(prefixes)], i, bodies[(i/len(prefixes))%len(bodies)])
+		}
+		res := comp.Compile(sb.String(), comp.Opts{Optimize: opt})
+		r.Add("evaluations", 1)
+		r.Add("nontrivial", 1)
+		if res.Err != nil || res.Panic != "" {
+			r.Report(harness.Violation{Sig: "C04:mass:rejected", Summary: fmt.Sprintf("file with %d scripts rejected: %v %s", n, res.Err, firstLine(res.Panic)), Replay: map[string]interface{}{"scripts": n, "optimize": opt}})
+			continue
+		}
+		defs := map[string]int{}
+		var refs []string
+		for _, line := range strings.Split(res.Out, "\n") {
+			if line == "" {
+				continue
+			}
+			if line[0] != '\t' {
+				defs[strings.TrimRight(line, ":")]++
+				continue
+			}
+			f := strings.Fields(line)
+			switch {
+			case f[0] == "goto" || strings.HasPrefix(f[0], "goto_if") || f[0] == "case":
+				refs = append(refs, f[len(f)-1])
+			}
+		}
+		r.Add("mass_file_labels", int64(len(defs)))
+		r.Add("mass_file_references", int64(len(refs)))
+		problems := 0
+		first := ""
+		for l, c := range defs {
+			if c != 1 {
+				problems++
+				if first == "" || l < first {
+					first = l
+				}
+			}
+		}
+		if problems > 0 {
+			r.Report(harness.Violation{Sig: "C04:mass:label_defined_n_times", Summary: fmt.Sprintf("file with %d scripts (optimize=%v): %d labels are not defined exactly once, e.g. %s defined %d times", n, opt, problems, first, defs[first]), Replay: map[string]interface{}{"scripts": n, "optimize": opt, "label": first, "generator": "c04MassFile"}})
+		}
+		undefined, firstU := 0, ""
+		for _, t := range refs {
+			if defs[t] == 0 {
+				undefined++
+				if firstU == "" || t < firstU {
+					firstU = t
+				}
+			}
+		}
+		if undefined > 0 {
+			r.Report(harness.Violation{Sig: "C04:mass:referenced_label_is_not_defined", Summary: fmt.Sprintf("file with %d scripts (optimize=%v): %d references to undefined labels, e.g. %s", n, opt, undefined, firstU), Replay: map[string]interface{}{"scripts": n, "optimize": opt, "label": firstU, "generator": "c04MassFile"}})
+		}
+	}
+	r.Set("mass_file_scripts", n)
 }
